@@ -36,7 +36,7 @@ ENV = ['plain', 'https', 'nohost', 'xfp', 'xfh', 'xfboth', 'xflists',
 KINDS = ['open', 'open-ws', 'poll', 'post', 'upgrade', 'options']
 VARIANTS = ['absent', 'empty', 'exact', 'prefix', 'suffix', 'label', 'case',
             'port', 'slash', 'path', 'blank', 'null', 'foreign', 'forwarded',
-            'second', 'swapscheme']
+            'second', 'swapscheme', 'xf-second-host', 'xf-second-proto']
 SRV = ['T', 'A']
 PRED_OK = 'http://pred.test'
 
@@ -197,6 +197,19 @@ def run_cell(rec, cell):
     scheme, host, xh = env_shape(envname)
     vals = allowed_values(cfgname, scheme, host, xh)
     origin = make_origin(variant, vals)
+    if variant in ('xf-second-host', 'xf-second-proto'):
+        # only the FIRST entries of multi-valued X-Forwarded-* headers count
+        protos = [x.strip() for x in (xh or {}).get(
+            'X-Forwarded-Proto', scheme).split(',')]
+        hosts = [x.strip() for x in (xh or {}).get(
+            'X-Forwarded-Host', host or '').split(',')]
+        origin = None
+        if variant == 'xf-second-host' and len(hosts) > 1:
+            origin = '%s://%s' % (protos[0], hosts[1])
+        if variant == 'xf-second-proto' and len(protos) > 1:
+            origin = '%s://%s' % (protos[1], hosts[0])
+        if origin in vals:
+            origin = None
     if origin is None and variant != 'absent':
         return
     case = {'cell': list(cell)}
